@@ -191,3 +191,75 @@ def run(R):
     n += 1
     R.ob("C07.partition", None, "dispenso/thread_pool.h", share is not None and share == group, "threads per steal ring = %s, threads per wake group = %s" % (share, group), sitekey="sharing-vs-group", why="a placed task in steal ring g is found only by the threads of ring g; the wake must land in the same set of threads")
     R.need("C07.partition", 1 if share is not None and group is not None else 0, 1, "steal-ring sharing and wake-group size constants")
+
+    # ---- the sentinel of claimAndWakeOne ----------------------------------------------------------------
+    # claimAndWakeOne() returns the index (>= 0, worker 0 included) of the sleeper it claimed and a
+    # negative value when none was left. Every test of that result must separate exactly those sets.
+    n = 0
+    CLAIM = "dispenso::detail::PoolWakeState::claimAndWakeOne"
+    neg_returns, var_returns = set(), 0
+    for cf in F.functions(qname=CLAIM):
+        for p, e in cf.events():
+            if e.get("k") == "return":
+                v = const_val(e.get("e"))
+                if v is not None:
+                    neg_returns.add(v)
+                else:
+                    var_returns += 1
+    sentinel_ok = bool(neg_returns) and all(v < 0 for v in neg_returns) and var_returns >= 1
+    for fn in F.fns:
+        calls = [(p, e) for p, e in fn.events() if is_call(e, CLAIM)]
+        if not calls:
+            continue
+        sids = {e["sid"] for _, e in calls}
+        vids = set()
+        for p, e in fn.events():
+            if e.get("k") == "decl" and isinstance(strip_casts(e.get("init")), dict) and strip_casts(e["init"]).get("sid") in sids:
+                vids.add(e["vid"])
+        is_res = lambda x: isinstance(strip_casts(x), dict) and (strip_casts(x).get("sid") in sids or (strip_casts(x).get("k") == "var" and strip_casts(x).get("vid") in vids))
+        for p, nd in fn.all_nodes():
+            if nd.get("k") == "bin" and nd.get("op") in ("<", "<=", ">", ">=", "==", "!="):
+                c = comparison_of(nd, True, is_res)
+                if not c:
+                    continue
+                op, other, side = c
+                k = const_val(other)
+                n += 1
+                # exact separation of {negative} from {0, 1, 2, ...}
+                none_forms = {("<", 0), ("<=", -1), ("==", -1)}
+                some_forms = {(">=", 0), (">", -1), ("!=", -1)}
+                ok = sentinel_ok and ((op, k) in none_forms or (op, k) in some_forms)
+                R.ob("C07.claim-sentinel", fn, nd, ok, "claimAndWakeOne() result tested with '%s %s'%s" % (op, k, "" if ok else ": worker 0 is a valid claim, a negative value means 'no sleeper left'"), sitekey="%s:%s%s" % (fn.qname.split("::")[-1], op, k),
+                     why="treating worker 0 as 'nobody left' stops a wake loop after one wake; treating 'nobody' as a worker places a task where no one looks")
+    R.need("C07.claim-sentinel", n, 2, "tests of claimAndWakeOne()'s result")
+
+    # ---- a claim must be delivered to the sleeper it claimed ----------------------------------------------
+    # tryClaimSleeper(t) clears t's bit in the group's sleep mask: from then on no other waker sees t.
+    # The wake that follows goes to the group's *shared* futex, so the kernel chooses the waiter. Unless
+    # the wake is wide enough to include t (all sleepers of the group), or an unclaimed thread that is
+    # woken hands the wake on, t can stay parked with its bit already cleared: invisible to every later
+    # claim until the backstop fires, while the thread that did wake clears its own bit as well.
+    n = 0
+    handoff = False
+    for wf in F.functions(regex=r"^dispenso::ThreadPool::threadLoopImpl$"):
+        ex = [p for p, e in wf.events() if is_call(e, "dispenso::detail::PoolWakeState::exitSleep")]
+        for p, e in wf.events():
+            if e.get("k") == "call" and e.get("name") in ("bumpAndWake", "bumpAndWakeN", "bumpAndWakeAll", "claimAndWakeOne", "handOnWake") and any(wf.can_reach(x, p) for x in ex):
+                handoff = True
+    for fn in F.fns:
+        if not fn.qname.startswith("dispenso::"):
+            continue
+        claims = [(p, e) for p, e in fn.events() if is_call(e, "dispenso::detail::PoolWakeState::tryClaimSleeper")]
+        for p, e in claims:
+            n += 1
+            wakes = [(wp, we) for wp, we in fn.events() if we.get("k") == "call" and (we.get("cls") or "").endswith("EpochWaiter") and we.get("name", "").startswith("bumpAndWake")
+                     and any(pol and isinstance(strip_casts(at), dict) and strip_casts(at).get("sid") == e["sid"] or (pol and e["sid"] in {s.get("sid") for s in subexprs(at) if isinstance(s, dict)}) for at, pol, b in fn.guard_atoms(wp))]
+            wide = [we for wp, we in wakes if we.get("name") in ("bumpAndWakeAll", "bumpAndWakeN")]
+            narrow = [we for wp, we in wakes if we.get("name") == "bumpAndWake"]
+            ok = bool(wakes) and (not narrow or handoff)
+            det = "claimed sleeper is covered by a group-wide wake" if ok and wide and not narrow else (
+                  "an unclaimed worker that is woken hands the wake on" if ok else
+                  ("tryClaimSleeper(t) clears t's mask bit, then bumpAndWake() wakes ONE waiter of the group's shared futex chosen by the kernel; a woken worker only clears its own bit (exitSleep) and never hands the wake on: t can stay parked and invisible to later claims" if wakes else "claim without a wake"))
+            R.ob("C07.claim-delivery", fn, e, ok, det, sitekey="claim->%s" % (narrow[0].get("name") if narrow else (wide[0].get("name") if wide else "none")),
+                 why="a parked worker whose mask bit is cleared can only be woken by the wake that cleared it; if the kernel gives that wake to another waiter, n submissions into n parked workers start only n-1 tasks before the backstop")
+    R.need("C07.claim-delivery", n, 1, "tryClaimSleeper call sites")
